@@ -635,6 +635,69 @@ pub fn manyrecs(ctx: &Ctx) -> Stats {
     })
 }
 
+/// batch hand-off stress: every record is its own batch (limit 1), thousands of batches per run, several runs per
+/// thread count — a row lost, duplicated or swapped at a batch boundary shows as a wrong row count or a row that is
+/// not the CGR of its record.  Both CGR writers.
+pub fn manybatches(ctx: &Ctx) -> Stats {
+    let runs = ctx.n(200, 2000);
+    let batches = std::sync::atomic::AtomicU64::new(0);
+    let mut st = par_cases(ctx, runs, |idx, st| {
+        let mut rng = Rng::keyed(ctx.seed, "cgr.manybatches", idx);
+        let nrec = rng.usize(3000, 5000);
+        let threads = [2usize, 3, 4, 8, 16][(idx % 5) as usize];
+        let s = 16u64;
+        let sc = Scratch::new(ctx, "cgrb");
+        st.case(true, mix(idx) ^ mix(nrec as u64 + 17));
+        batches.fetch_add(nrec as u64, std::sync::atomic::Ordering::Relaxed);
+        if idx % 2 == 0 {
+            // distinct short nucleotide records: record i has a length and content derived from i
+            let recs: Vec<Rec> = (0..nrec).map(|i| Rec { id: format!("b{}", i), desc: None, seq: { let l = 1 + (i % 7) + rng.usize(0, 3); nuc_seq(&mut rng, l) } }).collect();
+            let inp = sc.write("in.fa", &ser::to_fasta(&recs, &SerOpts::plain()));
+            let outp = sc.path("out.cgr");
+            st.class("whole-sequence");
+            let case = || Json::obj().set("S", Json::Int(s as i128)).set("threads", Json::u(threads)).set("batch_limit", Json::u(1)).set("n_records", Json::u(recs.len())).set("records", recs_json(&recs));
+            match run_cgr_file(&inp, &outp, s, threads, 1) {
+                Ok(Ok(())) => {
+                    let data = std::fs::read(&outp).unwrap_or_default();
+                    let ls = lines(&data);
+                    if ls.len() != recs.len() {
+                        st.violate("cgr.file.rowcount:manybatches", format!("{} rows for {} records ({} threads, one record per batch)", ls.len(), recs.len(), threads), case());
+                        return;
+                    }
+                    for (i, (l, rec)) in ls.iter().zip(recs.iter()).enumerate() {
+                        let ok = match parse_points(l, 2) {
+                            Ok(p) => check_points(&rec.seq, s, &p.iter().map(|v| (v[0], v[1])).collect::<Vec<_>>()).is_ok(),
+                            Err(_) => false,
+                        };
+                        if !ok {
+                            st.violate("cgr.file.row_order:manybatches", format!("row {} is not the CGR of record {} ({} threads, one record per batch)", i, i, threads), case());
+                            return;
+                        }
+                    }
+                }
+                Ok(Err(e)) => st.violate("cgr.file.error", e, case()),
+                Err(p) => st.violate(&panic_sig(&p), p, case()),
+            }
+        } else {
+            let k = rng.usize(1, 2);
+            let recs: Vec<Rec> = (0..nrec).map(|i| Rec { id: format!("b{}", i), desc: None, seq: { let l = (i % 9) + rng.usize(0, 4); nuc_seq(&mut rng, l) } }).collect();
+            let inp = sc.write("in.fa", &ser::to_fasta(&recs, &SerOpts::plain()));
+            st.class("k-mer CGR");
+            let case = || Json::obj().set("k", Json::u(k)).set("S", Json::Int(s as i128)).set("threads", Json::u(threads)).set("batch_limit", Json::u(1)).set("n_records", Json::u(recs.len())).set("records", recs_json(&recs));
+            match run_kcgr(&inp, &sc.path("out.kcgr"), k, s, false, threads, 1) {
+                Ok(d) => {
+                    if let Err((sig, msg)) = check_oligocgr_rows(&d, &recs, k, s, false) {
+                        st.violate(&format!("{}:manybatches", sig), msg, case());
+                    }
+                }
+                Err((sig, msg)) => st.violate(&sig, msg, case()),
+            }
+        }
+    });
+    st.set_extra("batch_boundaries_exercised", Json::Int(batches.load(std::sync::atomic::Ordering::Relaxed) as i128));
+    st
+}
+
 /// k-mer CGR on records with more than 2^24 windows of one canonical k-mer (accumulator width); analytic counts
 pub fn kcgr_large(ctx: &Ctx) -> Stats {
     let mut st = Stats::new();
